@@ -716,7 +716,8 @@ fn coloured(rng: &mut Rng, hyphen_splitter: bool) -> (String, String, Vec<(Vec<(
         }
     }
     let seqs_sgr: &[&str] = &["\x1b[0m", "\x1b[31m", "\x1b[1;32m", "\x1b[m", "\x1b[38;5;196m"];
-    let seqs_osc: &[&str] = &["\x1b]8;;http://x.y/z\x1b\\", "\x1b]8;;\x1b\\", "\x1b]8;;http://example.com\x07"];
+    // … hyperlinks and titles with non-ASCII payload (characters and bytes differ inside the sequence)
+    let seqs_osc: &[&str] = &["\x1b]8;;http://x.y/z\x1b\\", "\x1b]8;;\x1b\\", "\x1b]8;;http://example.com\x07", "\x1b]8;;file:///home/josé/résumé.txt\x1b\\", "\x1b]0;字幕😀\x07", "\x1b]8;;http://例え.jp/ü\x07"];
     let mut out = String::new();
     let is_ok = |c: Option<&char>| -> bool {
         match c {
@@ -744,7 +745,7 @@ fn coloured(rng: &mut Rng, hyphen_splitter: bool) -> (String, String, Vec<(Vec<(
                         format!("\x1b]8;;http://example.com/{}\x1b\\", "a".repeat([2070usize, 2083, 2100, 4100][rng.below(4)]))
                     };
                     &long
-                } else if rng.chance(3, 4) { *rng.pick(seqs_sgr) } else { *rng.pick(seqs_osc) };
+                } else if rng.chance(1, 10) { gen::real_sequence(rng) } else if rng.chance(3, 4) { *rng.pick(seqs_sgr) } else { *rng.pick(seqs_osc) };
                 out.push_str(sq);
                 pend.push_str(sq);
             }
